@@ -5,6 +5,7 @@ import (
 	"go/ast"
 	"go/token"
 	"go/types"
+	"os"
 	"sort"
 	"strings"
 
@@ -32,8 +33,16 @@ func c15PkgScope(rel string) bool {
 
 // reasoned exceptions for E1 (one named statement, one reason)
 var c15WriteExempt = map[string]string{
-	"html/boxes.computeContentList | value = append(value, \"first\")": "value is the Strings of a string()/element() content item, which validation.checkStringOrElementFunction always builds as a two-element literal: the len(value)==1 branch is dead and a literal has no spare capacity for append to write into",
+	"html/layout.getTemplateTracks | tracksList[len(tracksList)-1] = append(tracksList[len(tracksList)-1].(pr.GridNames), repea…": c15GridNamesReason,
+	"html/layout.getTemplateTracks | tracksList[len(tracksList)-1] = append(tracksList[len(tracksList)-1].(pr.GridNames), track…": c15GridNamesReason,
+	"html/layout.gridLayout | rows[2*y] = append(rows[2*y].(pr.GridNames), startName)":                                            c15GridNamesReason,
+	"html/layout.gridLayout | columns[2*x] = append(columns[2*x].(pr.GridNames), startName)":                                      c15GridNamesReason,
+	"html/layout.gridLayout | rows[len(rows)-2*y-1] = append(rows[len(rows)-2*y-1].(pr.GridNames), endName)":                      c15GridNamesReason,
+	"html/layout.gridLayout | columns[len(columns)-2*x-1] = append(columns[len(columns)-2*x-1].(pr.GridNames), endName)":          c15GridNamesReason,
+	"html/boxes.computeContentList | value = append(value, \"first\")":                                                            "value is the Strings of a string()/element() content item, which validation.checkStringOrElementFunction always builds as a two-element literal: the len(value)==1 branch is dead and a literal has no spare capacity for append to write into",
 }
+
+const c15GridNamesReason = "the entry extended is a line-names entry (even index) of the list built by getTemplateTracks, and those are copies: obligation `getTemplateTracks | line names are copies` checks that every shared value put in the list sits at a track-size position (odd index), where the validator never stores a GridNames; the analysis itself does not distinguish the dynamic types of the list's entries"
 
 // mutex-guarded memo caches: package-level variable -> its mutex
 var c15GuardedMemo = map[string]string{
@@ -375,6 +384,16 @@ func c15(c *core.Check) {
 		}
 		return false
 	})
+	if name := os.Getenv("WRV_DEBUG_PARAMWRITES"); name != "" {
+		if fn := p.Lookup(name); fn != nil {
+			for i := range fn.Params {
+				for _, w := range eng.ParamWrites(fn, i) {
+					fmt.Fprintf(os.Stderr, "DEBUG %s param %d: %s %s at %s via %s\n", name, i, w.What, p.StmtTextAt(w.Fn, w.Instr.Pos()), p.Pos(w.Instr.Pos()), w.Via)
+				}
+			}
+			fmt.Fprintf(os.Stderr, "DEBUG summary %+v\n", eng.Summary(fn))
+		}
+	}
 	r1 := c.Rule("R1", "no write into memory that outlives one style computation / one render: the declared value handed to a computer function (it belongs to the parsed stylesheet or to the initial values and is shared by every element and every render), a value read back from a style through its accessors, and anything reached from a package-level variable are never written outside package initialisation, except mutex-guarded memo caches whose every access is inside the lock region", 40)
 	// (a) computer functions
 	ctab, err := p.Table("html/tree", "tmp")
@@ -417,7 +436,7 @@ func c15(c *core.Check) {
 			name = callee.Name()
 			recv = callee.Signature.Recv().Type()
 		}
-		if !strings.HasPrefix(name, "Get") || recv == nil {
+		if !(strings.HasPrefix(name, "Get") || name == "Variables") || recv == nil {
 			return false
 		}
 		rs := recv.String()
@@ -450,7 +469,81 @@ func c15(c *core.Check) {
 			r1.Fail(key, p.Pos(w.Instr.Pos()), fmt.Sprintf("%s %s reached from a package-level variable", w.What, w.Via))
 		}
 	}
+	// (d) values of the type stored in a memo cache are shared wherever they travel (a Hyphener keeps a reference
+	//     to the cached dictionary): any write through them outside the lock region is a shared write
+	for full := range c15GuardedMemo {
+		i := strings.LastIndex(full, ".")
+		g := p.Global(full[:i], full[i+1:])
+		if g == nil {
+			continue
+		}
+		mt, ok := g.Type().(*types.Pointer).Elem().Underlying().(*types.Map)
+		if !ok {
+			continue
+		}
+		elem := mt.Elem()
+		// contains: the first-level fields of struct type t through which a memo value is embedded by value
+		var contains func(t types.Type, depth int) (bool, []int)
+		contains = func(t types.Type, depth int) (bool, []int) {
+			if depth > 4 {
+				return false, nil
+			}
+			if _, isNamed := t.(*types.Named); isNamed && types.Identical(t, elem) {
+				return true, nil
+			}
+			st, ok := t.Underlying().(*types.Struct)
+			if !ok {
+				return false, nil
+			}
+			var fields []int
+			for f := 0; f < st.NumFields(); f++ {
+				if all, sub := contains(st.Field(f).Type(), depth+1); all || len(sub) > 0 {
+					fields = append(fields, f)
+				}
+			}
+			return false, fields
+		}
+		isMemoValue := func(v ssa.Value) (bool, []int) {
+			t := v.Type()
+			if t == nil {
+				return false, nil
+			}
+			if _, isTuple := t.(*types.Tuple); isTuple {
+				return false, nil
+			}
+			// a value under construction in a local variable is not shared yet
+			switch x := v.(type) {
+			case *ssa.Range:
+				return false, nil // go/ssa's opaque iterator type
+			case *ssa.Alloc:
+				return false, nil
+			case *ssa.UnOp:
+				if _, isAlloc := x.X.(*ssa.Alloc); isAlloc {
+					return false, nil
+				}
+			}
+			if pt, ok := t.Underlying().(*types.Pointer); ok {
+				t = pt.Elem()
+			}
+			if _, isNamed := t.(*types.Named); !isNamed {
+				return false, nil
+			}
+			return contains(t, 0)
+		}
+		for _, fn := range p.FuncsOfPkg(full[:i]) {
+			if !c15Scope(fn) {
+				continue
+			}
+			for _, w := range eng.WritesFromFields(fn, isMemoValue) {
+				if okLock, _ := lockRegion(p, fn, w.Instr, full[:i], full[i+1:], c15GuardedMemo[full]); okLock {
+					continue
+				}
+				r1.Fail(fmt.Sprintf("%s | %s", core.FuncName(fn), p.StmtTextAt(fn, w.Instr.Pos())), p.Pos(w.Instr.Pos()), fmt.Sprintf("%s %s: the value belongs to the memo cache %s, shared by every user of the cache", w.What, w.Via, full))
+			}
+		}
+	}
 	r1.OK(fmt.Sprintf("%d module functions scanned for writes through style values and package-level variables", nFns), "-", "every remaining function has no such write")
+	c15GridNamesCopies(p, eng, r1)
 	for k := range exempted {
 		r1.Skip(k, "-", "reasoned exception: "+c15WriteExempt[k])
 	}
@@ -554,6 +647,22 @@ func c15(c *core.Check) {
 			continue
 		}
 		r2.Fail(key, p.Pos(s.pos), "unclassified iteration over a map: its body is none of the order-insensitive patterns and the site is not in the table confirmed by reading; if the iteration order can reach the backend calls, two renders of the same document differ")
+	}
+
+	// the reason given for svg.inheritDefs is itself an obligation: inheritElement resolves the parent before copying from it
+	if ie := p.Method("svg", "svgContext", "inheritElement"); ie != nil {
+		isRec := func(in ssa.Instruction) bool {
+			c2, ok := in.(*ssa.Call)
+			return ok && c2.Common().StaticCallee() == ie
+		}
+		isCopy := func(in ssa.Instruction) bool {
+			rg, ok := in.(*ssa.Range)
+			return ok && core.DerivesFrom(rg.X, func(v ssa.Value) bool { return core.IsFieldNamed(v, "attrs") })
+		}
+		okOrder, _ := core.MustPassThrough(ie, isRec, isCopy)
+		r2.Cond(okOrder, "svg.(*svgContext).inheritElement | parent resolved before its attributes are copied", p.Pos(ie.Pos()), "the recursive call on the parent precedes the loop over parent.attrs on every path", "attributes are copied from a parent that may not be resolved yet: the result depends on the order in which inheritDefs visits the map")
+	} else {
+		r2.Anchor("svg.(*svgContext).inheritElement")
 	}
 
 	// ---- R3 nondeterminism sources, goroutines, channels
@@ -683,4 +792,79 @@ func lockRegion(p *core.Prog, fn *ssa.Function, in ssa.Instruction, pkg, varName
 		return false, mu + ".Unlock() can run before the access"
 	}
 	return true, mu + ".Lock() dominates the access and no Unlock precedes it"
+}
+
+// c15GridNamesCopies backs the reasoned exceptions of the grid line names: in getTemplateTracks every value put into the
+// list that is shared with the style's value is put there under an odd-index test (a track size), so the line-name
+// entries (even indices), the only ones the layout extends, are fresh copies.
+func c15GridNamesCopies(p *core.Prog, eng *core.EffectsEngine, r *core.Rule) {
+	const key = "html/layout.getTemplateTracks | line names are copies"
+	fn := p.Lookup("html/layout.getTemplateTracks")
+	if fn == nil || len(fn.Params) != 1 {
+		r.Anchor(key)
+		return
+	}
+	shared := eng.ParamTaint(fn, 0)
+	isOddTest := func(a ssa.Value) bool {
+		ne, ok := a.(*ssa.BinOp)
+		if !ok || ne.Op != token.NEQ {
+			return false
+		}
+		if z, ok := core.ConstInt(ne.Y); !ok || z != 0 {
+			return false
+		}
+		rem, ok := ne.X.(*ssa.BinOp)
+		if !ok || rem.Op != token.REM {
+			return false
+		}
+		two, ok := core.ConstInt(rem.Y)
+		return ok && two == 2
+	}
+	var odd []ssa.Value
+	for _, a := range core.CondAtoms(fn) {
+		if isOddTest(a) {
+			odd = append(odd, a)
+		}
+	}
+	n, bad := 0, 0
+	core.Instrs(fn, func(in ssa.Instruction) {
+		call, ok := in.(*ssa.Call)
+		if !ok {
+			return
+		}
+		bi, ok := call.Call.Value.(*ssa.Builtin)
+		if !ok || bi.Name() != "append" || types.TypeString(call.Type(), nil) != "[]github.com/benoitkugler/webrender/css/properties.GridSpec" {
+			return
+		}
+		for _, v := range core.AppendOperands(call) {
+			n++
+			if !shared(v) {
+				continue
+			}
+			// shared: must be a track-size position
+			// under some index%2 != 0 test, and under no failed one (the inner loop over repeat() has its own index)
+			guarded := false
+			for _, a := range odd {
+				if ok, _ := core.GuardedBy(fn, call.Block(), []ssa.Value{a}, func(m map[ssa.Value]bool) bool { return m[a] }); ok {
+					guarded = true
+				}
+			}
+			for _, a := range odd {
+				if ok, _ := core.GuardedBy(fn, call.Block(), []ssa.Value{a}, func(m map[ssa.Value]bool) bool { return !m[a] }); ok {
+					guarded = false
+				}
+			}
+			if !guarded {
+				bad++
+				r.Fail(key+" | "+p.StmtTextAt(fn, call.Pos()), p.Pos(call.Pos()), "a value shared with the style's grid-template value is put in the tracks list outside an odd-index (track size) branch: the layout appends area names to the line-name entries of this list, so it would write into the stylesheet's value")
+			}
+		}
+	})
+	if n < 4 {
+		r.Unknown(key, p.Pos(fn.Pos()), fmt.Sprintf("only %d values appended to the tracks list were found (4 expected)", n))
+		return
+	}
+	if bad == 0 {
+		r.OK(key, p.Pos(fn.Pos()), fmt.Sprintf("%d appended values: the shared ones are all under an index%%2 != 0 test", n))
+	}
 }
